@@ -49,7 +49,8 @@ def mini_crate(ctx, name, template, toml_feats, edit_feats, arg):
         % (name.replace("-", ""), ft, fe))
     open(os.path.join(d, ".cargo", "config.toml"), "w").write('[net]\noffline = true\n[build]\ntarget-dir = "target"\n')
     _ct = os.path.join(d, "Cargo.toml")
-    open(_ct, "w").write(open(_ct).read().replace('"/repo/', '"%s/' % core.REPO))
+    _txt = open(_ct).read().replace('"/repo/', '"%s/' % core.REPO)
+    open(_ct, "w").write(_txt)
     shutil.copy(os.path.join(core.REPO, "Cargo.lock"), os.path.join(d, "Cargo.lock"))
     shutil.copy(os.path.join(core.ROOT, "lib", "gen_templates", template), os.path.join(d, "src", "main.rs"))
     p = subprocess.run(["cargo", "run", "--release", "--offline", "-q", "--", arg], cwd=d, stdout=subprocess.PIPE, stderr=subprocess.PIPE, text=True)
